@@ -853,6 +853,20 @@ func (c *Ctx) classifyAtom0(d *declInfo, li *loopInfo, ifs *ast.IfStmt, a ast.Ex
 		if f, _ := typeutil.Callee(info, ce).(*types.Func); f != nil {
 			return "predicate(" + objName(f) + ")", text
 		}
+		// the predicate handed to a generic filter helper: keep(v) — the decision is the caller's
+		if id, isId := ce.Fun.(*ast.Ident); isId {
+			if pv, isVar := info.Uses[id].(*types.Var); isVar {
+				if _, isFn := pv.Type().Underlying().(*types.Signature); isFn && d.fd.Type.Params != nil {
+					for _, fl := range d.fd.Type.Params.List {
+						for _, nm := range fl.Names {
+							if info.Defs[nm] == pv {
+								return "caller-predicate", text + " — the function value is a parameter: what is kept is decided where the helper is called"
+							}
+						}
+					}
+				}
+			}
+		}
 	}
 	if id, ok := a.(*ast.Ident); ok {
 		if v, isC := constOf(d.pkg, id); isC {
